@@ -17,7 +17,7 @@ static std::string gTmp;
 static std::mutex gWdMu;
 static std::map<uint64_t, std::pair<uint64_t, std::string>> gWd; // hist -> (start ns, phase)
 static double gWatchdogS = 420;
-static bool gDirtyRestart = false; // restart a TCP transport although sessions were open at stop()
+static bool gDirtyRestart = true; // restart TCP transports although sessions were open at stop() (0: only from a clean stop)
 static void wdSet(uint64_t h, const std::string &ph) { std::lock_guard<std::mutex> g(gWdMu); gWd[h] = {nowNs(), ph}; }
 static void wdClear(uint64_t h) { std::lock_guard<std::mutex> g(gWdMu); gWd.erase(h); }
 
@@ -186,9 +186,8 @@ static void runHistory(uint64_t seed, uint64_t idx)
   H.reconnectOnClose = rng.chance(0.6);
   H.microStallP = rng.chance(0.5) ? 0.03 : 0.0;
   int phases = rng.chance(0.15) ? 2 : 1;
-  // A TCP transport is restarted only from a clean stop (no session left for shutdownDrain): stop() with open
-  // sessions leaves stale fd tags behind and the restarted engine dereferences freed sessions (reported
-  // separately; --dirty-restart 1 exercises it).
+  // --dirty-restart 0 restarts TCP transports only from a clean stop (no session left for shutdownDrain): before fix
+  // 40be124 a stop() with open sessions left stale fd tags behind and the restarted engine used freed sessions.
   const bool cleanRestart = !H.udp && phases == 2 && !gDirtyRestart;
   if (cleanRestart) H.reconnectOnClose = false;
   {
@@ -355,7 +354,7 @@ int main(int argc, char **argv)
   uint64_t seed = a.u("seed", 1), from = a.u("from", 0), count = a.u("count", 4), par = a.u("par", 3);
   gWatchdogS = double(a.u("watchdog", 420));
   gTmp = a.s("tmp", "/tmp");
-  gDirtyRestart = a.u("dirty-restart", 0) != 0;
+  gDirtyRestart = a.u("dirty-restart", 1) != 0;
   auto &O = vf::out();
   // resolver script: nothing non-numeric ever reaches a real resolver
   {
